@@ -147,4 +147,51 @@ example :
        [.call 1, .call 1, .call 1, .call 1, .call 1, .call 1])
     S.ctl 0 = .fin .killed ∧ inBodyM (S.ctl 1) = true ∧ (S.comp 0).files = [(.ex, 1)] := by decide
 
+/-- **No residue with interrupts during acquisition** (D12h): a command that has died of SIGINT / SIGTERM — caught in
+its command body, or during `takeLocks` between two stacks or in the retry wait for a contended later stack, with the
+locks on the earlier stacks already taken — and whose handler has run to its end is engaged with NO stack: nothing of
+it is left anywhere.  More generally this holds of every finished command.  Every configuration, every schedule. -/
+theorem C09_path_interrupted_command_leaves_nothing (kind : Pid → Kind) (lp : Pid → Option Pid) (tries : Pid → Nat)
+    (path : Pid → List Dir) (explicit : Pid → Bool) (evs : List MEv) (p : Pid)
+    (hfin : finished ((mrunE (minit kind lp tries path explicit) evs).ctl p) = true) (d : Dir) :
+    engaged (((mrunE (minit kind lp tries path explicit) evs).comp d).pc p) = false ∧
+    ∀ k, (k, p) ∉ ((mrunE (minit kind lp tries path explicit) evs).comp d).files := by
+  have h := pinv_mrunE _ evs (pinv_minit kind lp tries path explicit)
+  generalize mrunE (minit kind lp tries path explicit) evs = S at *
+  have hne : engaged ((S.comp d).pc p) = false := by
+    cases he : engaged ((S.comp d).pc p) with
+    | false => rfl
+    | true =>
+      have := h.owe p d he
+      cases hc : S.ctl p <;> simp [hc, finished] at hfin
+      rw [hc] at this; simp [owed] at this
+  refine ⟨hne, ?_⟩
+  intro k hm
+  have := ((h.inv d).owner _ hm).2
+  have he := hasFile_engaged this
+  simp only at he
+  rw [hne] at he; cases he
+
+/-- the scenario: X holds stack 1 exclusively.  Y (path [0,1], three attempts) takes stack 0, is turned away at the gate
+of stack 1 and waits; SIGINT arrives in the retry wait: the handler gives stack 0 up, Y dies.  The reader Z then gets
+its shared lock on stack 0. -/
+example :
+    let kind : Pid → Kind := fun i => if i = 2 then .sh else .ex
+    let S := mrunE (minit kind (fun _ => none) (fun _ => 2)
+        (fun i => if i = 0 then [1] else if i = 1 then [0, 1] else [0]) (fun _ => true))
+      ([.call 0, .call 0, .call 0] ++ [.call 1, .call 1, .call 1, .call 1, .call 1, .call 1] ++ [.intr 1] ++
+       [.call 1, .call 1, .call 1, .call 1] ++ [.call 2, .call 2, .call 2])
+    S.ctl 1 = .fin .killed ∧ inBodyM (S.ctl 2) = true ∧ (S.comp 0).files = [(.sh, 2)] ∧
+    (S.comp 1).files = [(.ex, 0)] := by decide
+
+/-- D12i: X (stacks [0,1], exclusive) has left its body and its `giveLocks` has released stack 0; SIGTERM arrives as it
+is about to start on stack 1: the handler's pass releases stack 1 (it is still on the list), X dies, nothing is left —
+Y then takes both stacks. -/
+example :
+    let S := mrunE (minit (fun _ => .ex) (fun _ => none) (fun _ => 0) (fun _ => [0, 1]) (fun _ => true))
+      ([.call 0, .call 0, .call 0, .call 0, .call 0, .call 0] ++ [.call 0, .call 0, .call 0, .call 0, .call 0] ++
+       [.intr 0] ++ [.call 0, .call 0, .call 0, .call 0] ++ [.call 1, .call 1, .call 1, .call 1, .call 1, .call 1])
+    S.ctl 0 = .fin .killed ∧ inBodyM (S.ctl 1) = true ∧ (S.comp 0).files = [(.ex, 1)] ∧
+    (S.comp 1).files = [(.ex, 1)] := by decide
+
 end EupsModel.C09
